@@ -193,6 +193,7 @@ pub fn index_opts(rng: &mut Rng) -> IndexOpts {
         ntx_mode: if rng.chance(1, 4) { rng.range(1, 3) as u8 } else { 0 },
         key_overrides: vec![],
         file_info: rng.chance(1, 3),
+        pruned_below: 0,
     }
 }
 
